@@ -60,12 +60,12 @@ func snapString(s Snapshot) string {
 }
 
 type stReport struct {
-	Scenarios   int      `json:"scenarios"`
-	Steps       int      `json:"steps"`
-	Divergences []string `json:"divergences"`
-	Fidelity    int      `json:"fidelity_checked"`
-	FidelityBad []string `json:"fidelity_bad"`
-	SkippedOrderDependent int `json:"skipped_order_dependent"`
+	Scenarios             int      `json:"scenarios"`
+	Steps                 int      `json:"steps"`
+	Divergences           []string `json:"divergences"`
+	Fidelity              int      `json:"fidelity_checked"`
+	FidelityBad           []string `json:"fidelity_bad"`
+	SkippedOrderDependent int      `json:"skipped_order_dependent"`
 }
 
 func selftestWorker(build string, seed int64, worker, n int, out string) {
@@ -96,7 +96,10 @@ func selftestWorker(build string, seed int64, worker, n int, out string) {
 					plans = append(plans, a.Plan)
 				}
 				for pi, plan := range plans {
-					type obs struct{ exit int; stdout, stderr, trace, snap string }
+					type obs struct {
+						exit                        int
+						stdout, stderr, trace, snap string
+					}
 					var first *obs
 					for rep2 := 0; rep2 < 2; rep2++ {
 						sb := sim.NewSandbox(sc.W)
